@@ -2,9 +2,9 @@
 //! number by number (bit-exact against the single IEEE operation) and hence pointwise.
 //! Every operator impl that exists is named in the tables below: removing one breaks the build.
 
-use crate::flat::*;
-use crate::gen::*;
-use crate::mon::*;
+use ppv::flat::*;
+use ppv::gen::*;
+use ppv::mon::*;
 use piecewise_polynomial::*;
 use serde_json::json;
 
@@ -56,7 +56,7 @@ macro_rules! mag_poly {
         }
     };
 }
-crate::for_polys!(mag_poly);
+ppv::for_polys!(mag_poly);
 impl Mag for IntOfLogPoly4 {
     fn mag(&self, v: f64) -> (f64, f64) {
         let n = self.nums();
@@ -330,7 +330,7 @@ pub fn run(a: &Args, m: &mut Mon) {
                 op_translate!(m, &mut r, IntOfLog<$t>);
             };
         }
-        crate::for_polys!(per_poly);
+        ppv::for_polys!(per_poly);
         quartic_ops(m, &mut r);
         polyn_translate(m, &mut r);
     }
